@@ -151,3 +151,23 @@ Example history_independent_refuted :
   Unrepaired.evalSeqInPlace Qops qtiny qmaxf exBackend 2 exHist [] = [[3#5; 6#5]; [3#5; 6#5]] /\
   evalSeq Qops qtiny qmaxf exBackend 2 exHist [] = [[3#5; 6#5]; [31#5; 62#5]].
 Proof. vm_compute. split; reflexivity. Qed.
+
+(* ---- configuration layer -------------------------------------------------------------------- *)
+(* the setters clamp: 1/2 -> 1, 3 -> 2, 3/2 stays; rule and post-processing survive a factor change *)
+Example config_example :
+  let c0 := @mkCfg Qops WienerUpper 1 PNone in
+  map (fun n => c_factor (configure Qops c0 [OpRule Labyrinth; @OpLab Qops n])) [1#2; 3; 3#2; 0; -1] = [1; 2; 3#2; 1; 1] /\
+  c_rule (configure Qops c0 [OpRule Labyrinth; OpPost PMajority; @OpLab Qops (1#2)]) = Labyrinth /\
+  c_post (configure Qops c0 [OpRule Labyrinth; OpPost PMajority; @OpLab Qops (1#2)]) = PMajority.
+Proof. vm_compute. repeat split; reflexivity. Qed.
+
+(* the hypothesis on the constructor argument of C17_config_factor_in_range / C17_config_labyrinth_le
+   is needed: the constructor stores labyrinthFactor as given, and with 1/2 the labyrinth rule
+   (f ** (1/2) at f = 1/4 is 1/2) exceeds upper Wiener.  This is what kawin does for
+   HomogenizationParameters('lab', labyrinthFactor=0.5) (recorded finding, fixes/C17-ctor-labyrinth-clamp.patch) *)
+Example ctor_factor_unclamped_refuted :
+  let c0 := @mkCfg Qops Labyrinth (1#2) PNone in
+  c_factor (configure Qops c0 [OpRule Labyrinth]) = 1#2 /\
+  Qlt (wienerUpperC Qops qtiny [1#4; 3#4] [4; 1])
+      (labyrinthC Qops qtiny (fun f => if Qeq_bool f (1#4) then 1#2 else f) [1#4; 3#4] [4; 1]).
+Proof. vm_compute. split; reflexivity. Qed.
